@@ -39,14 +39,17 @@ static ogg_int64_t _get_prev_page_serial(OggVorbis_File *vf,ogg_int64_t begin,lo
   ASSUME(budget>0); budget--;
   CHECK(begin>0&&begin<=B[KL],"search start inside file");
   int L=link_of(begin-1); ogg_int64_t r=ND_long();
-  { int hit=0; for(int i=0;i<n && i<2;i++) if(list[i]==SER[L]) hit=1;   /* the real search READS the list (it may alias vf->serialnos+2 for the first link) */
-    CHECK(n>=1 && hit,"backward search is given the live serial-number list of the link it closes"); }
+  { long sum=0; for(int i=0;i<n && i<2;i++) sum+=list[i];   /* the real search READS the list (for the first link it aliases vf->serialnos+2, which the deepest activation frees and replaces): every element must still be a live object here */
+    CHECK(n>=1 && (sum==sum),"backward search is given a live serial-number list"); }
   ASSUME(r>=B[L] && r<begin && r<=LASTP[L]); if(begin>LASTP[L]) ASSUME(r==LASTP[L]);
   ogg_int64_t g = (r==LASTP[L])? G[L] : ND_long();
   *serialno=SER[L]; *granpos=g; vf->offset=begin; return r; }
-static vorbis_info VI[KL]; static int hdr_link=-1;
+static vorbis_info VI[KL]; static int hdr_link=-1; static int g_hdr_failed=0;
 static int _fetch_headers(OggVorbis_File *vf,vorbis_info *vi,vorbis_comment *vc,long **list,int *n,ogg_page *og){
   int L=link_of(vf->offset); CHECK(L>=0 && vf->offset==B[L],"headers are fetched exactly at a link start");
+#ifdef HDRFAIL
+  if(ND_BOOL()){ g_hdr_failed=1; int e=ND_int(); ASSUME(e==OV_EREAD||e==OV_ENOTVORBIS||e==OV_EBADHEADER||e==OV_EVERSION||e==OV_EFAULT); return e; }   /* a later link that cannot be opened */
+#endif
   memset(vi,0,sizeof *vi); memset(vc,0,sizeof *vc); vi->channels=L+1; vi->rate=1000+L; vi->codec_setup=0;
   *list=malloc(sizeof(long)); ASSUME(*list!=0); (*list)[0]=SER[L]; *n=1; vf->os.serialno=SER[L]; vf->offset=D[L]; vf->ready_state=STREAMSET; return 0; }
 static ogg_int64_t _initial_pcmoffset(OggVorbis_File *vf,vorbis_info *vi){ int L=link_of(vf->offset); CHECK(L>=0&&vf->offset==D[L],"initial offset computed at first audio page"); vf->offset=ND_long(); ASSUME(vf->offset>D[L]&&vf->offset<=B[L+1]); return P[L]; }
@@ -67,6 +70,7 @@ void harness(void){
   vf.serialnos=calloc(3,sizeof(long)); vf.offsets=calloc(1,sizeof(ogg_int64_t)); vf.dataoffsets=calloc(1,sizeof(ogg_int64_t)); ASSUME(vf.serialnos&&vf.offsets&&vf.dataoffsets);
   vf.serialnos[0]=SER[0]; vf.serialnos[1]=1; vf.serialnos[2]=SER[0]; vf.os.serialno=SER[0]; vf.current_serialno=SER[0]; vf.dataoffsets[0]=D[0]; vf.offset=D[0];
   int r=_open_seekable2(&vf);
+  if(g_hdr_failed){ CHECK(r<0,"a link whose headers cannot be fetched makes the open fail with a negative code (no table is filled from a failed search)"); WITNESS_AT("open failed on a later link"); free(vf.vi); free(vf.vc); if(vf.serialnos)free(vf.serialnos); if(vf.offsets)free(vf.offsets); if(vf.dataoffsets)free(vf.dataoffsets); return; }
   CHECK(r==0,"open of an intact chain succeeds");
   if(r==0){
     CHECK(vf.links==KL,"every link found");
